@@ -426,6 +426,11 @@ def run(ctx) -> None:
     # names: the original -> current map they are built from is never an unfiltered inversion of the reverse map
     from .c06 import check_inversions_over_current_names
 
+    # "a wait on a name nobody produces" is decided against the outputs nodes declare: a nested-graph node declares no
+    # inner ordering signal (its executor can never produce one), on any path of its constructor
+    from .c17 import check_wrapper_offers_no_inner_signals
+
+    check_wrapper_offers_no_inner_signals(ctx, "C19.R10")
     check_inversions_over_current_names(ctx, "C19.R5")
     from .c06 import check_renames_reject_duplicates
 
